@@ -116,6 +116,9 @@ def _conv_index(I, idx, node):
         return idx
     if isinstance(idx, ExtRef) and idx.dotted == "numpy.newaxis":
         return None
+    if isinstance(idx, np.ndarray) and idx.dtype == object and idx.size and \
+            all(isinstance(x, (bool, np.bool_)) or x is sp.true or x is sp.false for x in idx.ravel()):
+        return np.array([bool(x) for x in idx.ravel()], dtype=bool).reshape(idx.shape)         # a boolean mask computed elementwise
     if idx is None or isinstance(idx, np.ndarray):
         return idx
     if isinstance(idx, Num) or _is_sym(idx):
